@@ -213,4 +213,27 @@ theorem canon_runOps_eq {ι ι' Cfg σ Act : Type} [DecidableEq ι] [DecidableEq
   simp only [List.map_nil] at c1 c2
   rw [c1, c2]
 
+/-- `reset(seed = s)` from ANY two process states with the same episode index (whatever happened before, whatever the
+generator state, wherever in whatever environment): the two new games agree, and the first outputs are images of one
+symbolic output under the new namings. -/
+theorem doReset_seed_rel {ι ι' Cfg σ Act : Type} [DecidableEq ι] [DecidableEq ι'] (g : Fixed) {ρ : Rho ι} {ρ' : Rho ι'}
+    (hv : ρ.Valid) (hv' : ρ'.Valid) (sim : Sim Cfg σ Act) (sched : Nat → Cfg)
+    (hs : sim.Safe (StampLenAgree g ρ ρ')) (p p' : Proc σ) (he : p.episode = p'.episode) (s : Nat) :
+    (doReset g ρ sim sched p (some s)).1.Agree (doReset g ρ' sim sched p' (some s)).1 ∧
+    ∃ sym : List (Tok Nat),
+      (doReset g ρ sim sched p (some s)).2 =
+        sym.map (Tok.map fun n => ρ.uuid ((doReset g ρ sim sched p (some s)).1.baseId + n)) ∧
+      (doReset g ρ' sim sched p' (some s)).2 =
+        sym.map (Tok.map fun n => ρ'.uuid ((doReset g ρ' sim sched p' (some s)).1.baseId + n)) := by
+  have hsafe : (sim.rebuild (sched (p.episode + 1))).Safe (StampLenAgree g (p.rebase.rho ρ) (p'.rebase.rho ρ')) :=
+    Prog.Safe.mono (fun h => h.shift _ _ _ _ _ _) (hs.rebuild _)
+  have e : interp g (p.rebase.rho ρ) (sim.rebuild (sched (p.episode + 1))) { rng := g.seed s } =
+      interp g (p'.rebase.rho ρ') (sim.rebuild (sched (p.episode + 1))) { rng := g.seed s } :=
+    interp_indep g (hv.shift p.rebase.baseId p.rebase.baseSt p.rebase.basePerm)
+      (hv'.shift p'.rebase.baseId p'.rebase.baseSt p'.rebase.basePerm) _ _ hsafe
+  simp only [doReset, resetRng, ← he]
+  refine ⟨⟨rfl, by rw [e], by rw [e]⟩,
+    (interp g (p.rebase.rho ρ) (sim.rebuild (sched (p.episode + 1))) { rng := g.seed s }).1.2, rfl, ?_⟩
+  rw [e]; rfl
+
 end Primaite.Noninterf
